@@ -15,6 +15,10 @@ CLAIMED = {
         text="Proof, for every type the type checker finds implementing util.Packable (Size and Pack of all 31 implementers), util.PackString, knxnet.Pack and knxnet.AllocAndPack: no panic when len(buffer) >= Size(), only buffer[0:Size()) is written (frame check over the whole heap), and a relational two-run obligation that every byte of buffer[0:Size()) is independent of the buffer's previous content; header service/length fields and len(AllocAndPack(v)) == Size+6 as post-conditions.",
         note="Assumes as C01 plus: deep separation of the value from the output buffer (requires sepdeep), LData.Data is *AppData/*ControlData, 6-byte hardware address, charmap encoder deterministic. BOUNDED: SupportedServicesDIB.Pack is proved for at most 5 service families (loop unrolled; its quantified invariant did not discharge), which also bounds SearchRes/DescriptionRes. Socket Send (one write of that buffer) is not covered until environment operations are modelled.",
         ref="§3 C15"),
+    "C11": dict(
+        text="Proof of post-conditions written from the cEMI bit layout (not from the code): flag constructors/accessors over their whole 8-bit domains (Control1Prio, Control2Hops, Hops incl. Hops(Control2Hops(h)) == min(h,7), IsGroupAddr, IsGroupCommand); byte-exact layout of Info.Pack, AppData.Pack, ControlData.Pack and of LData.Pack (control fields, big-endian addresses, length octet, TPCI/APCI split, payload placement); and exact field extraction from any accepted byte string by Info.Unpack, unpackTransportUnit and LData.Unpack (the latter verified against callee bodies, 'exact' mode).",
+        note="Assumes as C01/C15. LData.Pack's post-condition restates the additional-info length octet but not the info bytes (those are Info.Pack's contract; the quantified restatement did not discharge). LData.Pack obligations need up to ~60 s each on z3 5.1 (timeout 150 s in the contract). The message-code octet is written by cemi.Pack (inline dispatcher) and covered by C15/C02 only.",
+        ref="§3 C11"),
 }
 
 NA = {
